@@ -737,7 +737,7 @@ def fam_crosshair(timeout):
                       'counterexamples' % (confirmed, notconf, len(bad)),
                       info=dict(seconds=round(time.time() - t0, 1),
                                 tail=out[-1500:]))
-    return Family('strings-crosshair', path, bounds=dict(
+    return Family('strings-crosshair', path, conformance=False, bounds=dict(
         engine='crosshair-tool, symbolic str, per-condition timeout %ds; '
         '"Not confirmed" = no counterexample within the budget (bug-hunting '
         'only, not a proof)' % timeout))
